@@ -7,7 +7,7 @@ Driver for C16.
   c16 exec <tree> <clock> <gauges> <ncounters> <nobs>
       tree    comma-separated prefix code:  Call := C nW W… Body ;  W := T m kind mode tid | I g | E c n cls… ;
               Body := O out | N swallow n Call… out | R depth out ;  out := r v | x id cls
-              (kind 0 = set, 1 = observe; mode 0 = decorator, 1 = with-new, 2 = with-shared; cls 0..7)
+              (kind 0 = set, 1 = observe; mode 0 = decorator, 1 = with-new, 2 = with-shared; cls 0..10)
       clock   `;`-list of readings (or `.`), gauges `;`-list of initial gauge values
    -> ok <outcome> <observations oldest first m:k:d> <gauges> <counter deltas>
          <spec outcome> <spec timed counts: observe metrics, then gauges> <spec escape counts>
@@ -24,11 +24,13 @@ open PromVerif PromVerif.Wire PromVerif.Model.Wrappers PromVerif.Spec.Wrappers
 
 def clsOf : Nat → ExcClass
   | 0 => .baseException | 1 => .exception | 2 => .valueError | 3 => .lookupError | 4 => .keyError
-  | 5 => .keyboardInterrupt | 6 => .systemExit | _ => .generatorExit
+  | 5 => .keyboardInterrupt | 6 => .systemExit | 7 => .generatorExit
+  | 8 => .baseExceptionGroup | 9 => .exceptionGroup | _ => .valueGroup
 
 def clsNo : ExcClass → Nat
   | .baseException => 0 | .exception => 1 | .valueError => 2 | .lookupError => 3 | .keyError => 4
   | .keyboardInterrupt => 5 | .systemExit => 6 | .generatorExit => 7
+  | .baseExceptionGroup => 8 | .exceptionGroup => 9 | .valueGroup => 10
 
 def pOut : List String → Option (Outcome × List String)
   | "r" :: v :: r => v.toNat?.map (fun n => (.ret n, r))
